@@ -363,6 +363,16 @@ fn record(seed: u64, count: usize, nested: bool, path: &str) {
             .map(|i| json!([i, r.fin.resolve(i).map(|t| proj::body(Mode::Plain, t)).into_iter().collect::<Vec<_>>()]))
             .collect();
         out.put(&json!({"ev": "Final", "types": proj::registry(Mode::Plain, &r.fin), "res": res}));
+        // C01, fourth producer: decoding the library's own output
+        {
+            use scale::Decode;
+            let bytes = r.fin.encode();
+            let dec = match PortableRegistry::decode(&mut &bytes[..]) {
+                Ok(d) => json!({"ok": [proj::registry(Mode::Plain, &d)]}),
+                Err(e) => json!({"err": e.to_string()}),
+            };
+            out.put(&json!({"ev": "Decoded", "res": dec}));
+        }
         // C11(ii): replay the same history in a fresh registry -> byte-identical encoding
         if let Ok(r2) = run_history(&info, &hist) {
             out.put(&json!({"ev": "Replay", "a": r.fin.encode(), "b": r2.fin.encode()}));
